@@ -3,6 +3,8 @@
 package attestations
 
 import (
+	"math"
+
 	"github.com/ethereum/go-ethereum/accounts/abi"
 
 	errorsmod "cosmossdk.io/errors"
@@ -151,6 +153,13 @@ func ABIDecodeStateAttestation(data []byte) (*StateAttestation, error) {
 	timestampSeconds, ok := unpacked[1].(uint64)
 	if !ok {
 		return nil, errorsmod.Wrap(ErrInvalidAttestationData, "invalid timestamp type")
+	}
+
+	// the attested timestamp is in seconds and stored in nanoseconds: reject values whose conversion would
+	// wrap around in uint64, otherwise two different attested timestamps can map to the same stored value
+	// and a conflicting update would not be detected as misbehaviour.
+	if timestampSeconds > math.MaxUint64/nanosPerSecond {
+		return nil, errorsmod.Wrapf(ErrInvalidTimestamp, "timestamp %d seconds overflows uint64 nanoseconds", timestampSeconds)
 	}
 
 	return &StateAttestation{
